@@ -40,7 +40,7 @@ pub fn compare(rendered: &Rendered, found: &[BlockDump], check_gt: bool) -> Vec<
     for (i, (exp, got)) in rendered.blocks.iter().zip(found).enumerate() {
         let name = got.attributes.iter().find(|(k, _)| k == "name").map(|(_, v)| v.as_str());
         let has = |k: &str, v: &str| got.attributes.iter().any(|(gk, gv)| gk == k && gv == v);
-        let unicode_ok = !exp.unicode || (has("größe", "") && has("ключ", "é1"));
+        let unicode_ok = !exp.unicode || (has("größe", "") && has("ключ", "é1") && has("ref", "a#b//c"));
         let attributes_match = if exp.name.is_empty() { got.attributes.is_empty() } else { name == Some(exp.name.as_str()) && unicode_ok };
         if !attributes_match {
             problems.push(("wrong-order-or-attributes".into(), format!("block #{i}: expected name {} in source order, found attributes {:?}", exp.name, got.attributes)));
